@@ -446,10 +446,13 @@ from rules import libtab as _lt
 class NetSession(_lt.SAConc, _lt.Conc):
     """a whole QMTP/QMQP session of the daemon's main() over a scripted byte stream: what reaches the queue interface,
     what is written to the client, and how the process ends"""
-    def __init__(self, script):
+    def __init__(self, script, close='', rcpt_ok=1, relay=None):
         _lt.Conc.__init__(self, 'main')
         self.script = script
         self.ends = []
+        self.close = close          # what the queue program answers when nothing was failed ('' = queued)
+        self.rcpt_ok = rcpt_ok      # rcpthosts() verdict: a number, or a function of the address
+        self.relay = relay
 
     def ev(self, E, e):
         E.set('$ev', fs(_lt._one(E.get('$ev')) + (e,) if _lt._one(E.get('$ev')) else (e,)))
@@ -475,7 +478,9 @@ class NetSession(_lt.SAConc, _lt.Conc):
     prim_time = prim_now
 
     def prim_rcpthosts(self, E, x, args):
-        return [Outcome(ret=fs(1))]
+        n_ = _lt._one(args[1])
+        a_ = self.mem(E, _lt._one(args[0]), n_) if isinstance(n_, int) and 0 <= n_ < 2000 else None
+        return [Outcome(ret=fs(self.rcpt_ok(a_) if callable(self.rcpt_ok) else self.rcpt_ok))]
 
     def prim_qmail_put(self, E, x, args):
         n = _lt._one(args[2])
@@ -499,8 +504,9 @@ class NetSession(_lt.SAConc, _lt.Conc):
         return [Outcome(ret=TOP)]
 
     def prim_qmail_close(self, E, x, args):
+        failed = ('fail',) in self.events(E)
         self.ev(E, ('close',))
-        return [Outcome(ret=fs(('str', '')))]
+        return [Outcome(ret=fs(('str', 'Zqq failed' if failed else self.close)))]      # a failed message is never queued
 
     def _stream(self, E, v):
         v = _lt._one(v)
@@ -560,10 +566,12 @@ def netstring(b):
     return str(len(b)).encode() + b':' + b + b','
 
 
-def run_session(db, rep, pname, unit, script):
+def run_session(db, rep, pname, unit, script, close='', rcpt_ok=1, databytes=0):
     prog = db.program(pname)
     main = prog.fn('main', unit)
-    H = NetSession(script)
+    H = NetSession(script, close, rcpt_ok)
+    if databytes:
+        H.prim_control_readint = lambda E, x, args, d_=databytes: [Outcome(ret=fs(1), sets={_lt._one(args[0])[1]: fs(d_)})] if (x.args[1].string or '').endswith('databytes') or True else [Outcome(ret=fs(0))]
     e = Engine(db, prog, H, max_states=400000)
     st = {'G:databytes': fs(0), 'G:bytestooverflow': fs(0), 'G:bytesleft': fs(100), 'G:flagok': fs(1), 'G:failure.len': fs(0), 'G:failure.a': fs(0), 'G:failure.s': fs(0),
           'G:relayclient': fs(0), 'G:relayclientlen': fs(0)}       # the start-up values of the program's globals
@@ -607,6 +615,89 @@ def length_overflow_sites(db, rep):
                     bad = 'a session whose length field %d reads %r: %s, reply %r, then %s; documented: a length beyond the 200000000 limit ends the session (exit 111 or 100) before the number can wrap' % (
                         pos, txt, [e for e in evs if e[0] != 'put'][:6], outb[:30], end)
         out['%s:over-long-lengths-end-the-session-before-they-wrap' % pname] = (bad is None, unit + ':main', bad or '%d scripted sessions' % n, [])
+    return out
+
+
+def verdict_sites(db, rep):
+    """the daemons' answers over scripted sessions: the positive reply exactly when the queue program took the message; every refusal cause
+    (bad sender, no acceptable recipient, message beyond databytes in either line mode) fails the message before the queue is asked"""
+    out = {}
+    for pname, unit in (('qmail-qmtpd', 'qmail-qmtpd.c'), ('qmail-qmqpd', 'qmail-qmqpd.c')):
+        qmtp = pname == 'qmail-qmtpd'
+        n = [0]
+
+        def run(msg=b'hi', sender=b'a@b', rcpts=(b'c@d', b'e@f'), mode=b'\n', **kw):
+            n[0] += 1
+            if qmtp:
+                lens = None
+                body = mode + msg
+                ns = lambda b: str(len(b)).encode() + b':' + b + b','
+                script = ns(body) + ns(sender) + ns(b''.join(ns(r) for r in rcpts))
+            else:
+                script = wire_session(False, msg, sender, list(rcpts))
+            evs, end = run_session(db, rep, pname, unit, script, **kw)
+            outb = b''.join(e[1] or b'?' for e in evs if e[0] == 'out')
+            return evs, end, outb
+
+        def replies(outb):
+            """the netstrings of the reply"""
+            res = []
+            while outb:
+                k = outb.find(b':')
+                if k < 0 or not outb[:k].isdigit():
+                    return res + [None]
+                ln = int(outb[:k])
+                res.append(outb[k + 1:k + 1 + ln])
+                outb = outb[k + 2 + ln:]
+            return res
+
+        def fail_before_close(evs):
+            ks = [e[0] for e in evs]
+            return 'fail' in ks and 'close' in ks and ks.index('fail') < ks.index('close') or ('fail' in ks and 'close' not in ks)
+        bad = {}
+
+        def check(key, ok, text):
+            if not ok:
+                bad.setdefault(key, text)
+        # the positive reply exactly when the queue took the message
+        for close in ('', 'Dqq permanent problem (#5.3.0)', 'Zqq temporary problem (#4.3.0)'):
+            evs, end, outb = run(close=close)
+            rs = replies(outb)
+            want = b'K' if close == '' else close[:1].encode()
+            check('ack-iff-the-queue-took-the-message', bool(rs) and None not in rs and all(r_[:1] == want for r_ in rs) and (close == '' or all(r_ == close.encode() for r_ in rs)) and ('close',) in evs,
+                  'the queue program answers %r and the client is told %s' % (close or 'success', rs))
+        # refusal causes
+        evs, end, outb = run(sender=b'a\0b')
+        check('bad-sender-fails-the-message', fail_before_close(evs) and all(r_ is not None and r_[:1] == b'D' for r_ in replies(outb)) and replies(outb),
+              'a sender containing a NUL: %s, client told %s' % ([e for e in evs if e[0] != 'put'][:6], replies(outb)))
+        evs, end, outb = run(rcpts=(b'c\0d', b'e@f'))
+        rs = replies(outb)
+        if qmtp:
+            okr = ('to', b'e@f') in evs and not any(e[0] == 'to' and e[1] != b'e@f' for e in evs) and len(rs) == 2 and rs[0] is not None and rs[0][:1] == b'D' and rs[1][:1] == b'K'
+        else:
+            okr = fail_before_close(evs) and not any(e[0] == 'to' and e[1] != b'e@f' for e in evs) and len(rs) == 1 and rs[0][:1] == b'D'
+        check('bad-recipient-is-refused-and-not-handed-on', okr, 'a recipient containing a NUL followed by a good one: %s, client told %s' % ([e for e in evs if e[0] != 'put'][:6], rs))
+        if qmtp:
+            evs, end, outb = run(rcpt_ok=0)
+            rs = replies(outb)
+            check('no-acceptable-recipient-fails-the-message', fail_before_close(evs) and not any(e[0] == 'to' for e in evs) and len(rs) == 2 and all(r_ is not None and r_[:1] == b'D' for r_ in rs),
+                  'rcpthosts refuses every recipient: %s, client told %s' % ([e for e in evs if e[0] != 'put'][:6], rs))
+            evs, end, outb = run(rcpt_ok=lambda a_: 0 if a_ == b'c@d' else 1)
+            rs = replies(outb)
+            check('refused-recipients-are-not-handed-on', [e for e in evs if e[0] == 'to'] == [('to', b'e@f')] and ('fail',) not in evs and len(rs) == 2 and rs[0][:1] == b'D' and rs[1][:1] == b'K',
+                  'rcpthosts refuses the first of two recipients: %s, client told %s' % ([e for e in evs if e[0] != 'put'][:6], rs))
+            for mode, name in ((b'\n', 'LF'), (b'\r', 'CRLF')):
+                for msg, over in ((b'abcd', False), (b'abcde', True), (b'abcdefghij', True)):
+                    evs, end, outb = run(msg=msg, mode=mode, databytes=4)
+                    rs = replies(outb)
+                    if over:
+                        oks = fail_before_close(evs) and rs and all(r_ is not None and r_[:1] == b'D' for r_ in rs)
+                    else:
+                        oks = ('fail',) not in evs and rs and all(r_ is not None and r_[:1] == b'K' for r_ in rs) and b''.join(e[1] or b'?' for e in evs if e[0] == 'put') == msg
+                    check('message-beyond-databytes-fails(%s-mode)' % name, oks, 'databytes = 4, a message of %d bytes in %s mode: %s, client told %s' % (len(msg), name, [e for e in evs if e[0] != 'put'][:5], rs))
+        for key in ['ack-iff-the-queue-took-the-message', 'bad-sender-fails-the-message', 'bad-recipient-is-refused-and-not-handed-on'] + \
+                (['no-acceptable-recipient-fails-the-message', 'refused-recipients-are-not-handed-on', 'message-beyond-databytes-fails(LF-mode)', 'message-beyond-databytes-fails(CRLF-mode)'] if qmtp else []):
+            out['%s:%s' % (pname, key)] = (key not in bad, unit + ':main', bad.get(key, '%d scripted sessions' % n[0]), [])
     return out
 
 
@@ -819,39 +910,11 @@ def run(ctx):
     if nrows < 20 and badack is None:
         raise AnalysisBroken('smtp_data: only %d reply scenarios explored' % nrows)
     r3.check(badack is None, 'smtpd:reply-class-per-(hops,size,queue-verdict)', sd.unit + ':smtp_data', badack[0] if badack else '%d scenarios' % nrows, badack[1] if badack else None)
-    for pname, unit in (('qmail-qmtpd', 'qmail-qmtpd.c'), ('qmail-qmqpd', 'qmail-qmqpd.c')):
-        p = db.program(pname)
-        m = p.fn('main', unit)
-        kok = [c for c in m.calls('fmt_str') if (c.args[1].string or '').startswith('K')]
-        if not kok:
-            raise AnalysisBroken('%s: "Kok " literal not found' % unit)
-        for c in kok:
-            v = None
-            for cond, t in m.guards(c) or []:
-                v = v or deref_zero_test(cond, t)
-            ds = defs_of(m, v) if v else []
-            before = [d for d in ds if m.dominates(d, c) or m.can_reach(m.pos[d.id][0], m.pos[c.id][0])]
-            srcs_ok = True
-            has_close = False
-            for d in before:
-                rhs = d.args[-1].strip()
-                if rhs.k == 'call' and rhs.callee == 'qmail_close':
-                    has_close = True
-                elif rhs.string is not None and len(rhs.string) > 0:
-                    pass
-                elif rhs.k == 'ref' or rhs.k == 'cast':
-                    # result = buf / buf2 : the K text itself, assigned inside the success branch
-                    if not any(deref_zero_test(cc, tt) == v for cc, tt in (m.guards(d) or [])):
-                        srcs_ok = False
-                else:
-                    srcs_ok = False
-            r3.check(bool(v) and has_close and srcs_ok, '%s:K-needs-empty-qmail_close' % pname, c.where,
-                     'the K reply is built where *result may be empty for a reason other than qmail_close() == ""')
-        # policy overrides start with D
-        for x in m.all_x():
-            if x.k == 'asg' and x.args[0].var and x.args[0].var.startswith('L:result') and x.args[1].string is not None:
-                r3.check(x.args[1].string.startswith('D'), '%s:override-is-permanent:%s' % (pname, x.args[1].string[:14]), x.where, 'policy override text %r' % x.args[1].string[:30])
-    r3.expect_min(6)
+    vsites = verdict_sites(db, rep)
+    for inst_, v_ in sorted(vsites.items()):
+        if inst_.endswith(':ack-iff-the-queue-took-the-message'):
+            r3.check(v_[0], inst_, v_[1], v_[2], v_[3])
+    r3.expect_min(3)
 
     # ---------------------------------------------------------------- 4. refusal causes latch before close
     r4 = rep.rule('C07.4-refusals-latch', 'R-ORDER', 'hop limit (>= MAXHOPS = 100), size countdown, bad sender/recipient each call qmail_fail before qmail_close')
@@ -954,89 +1017,10 @@ def run(ctx):
     for inst, v in sorted(databytes_setup_sites(db, rep).items()):
         r4.check(v[0], inst, v[1], v[2], v[3])
 
-    # qmtpd
-    pm = db.program('qmail-qmtpd')
-    m = pm.fn('main', 'qmail-qmtpd.c')
-    mc = m.calls('qmail_close')
-    if not mc:
-        raise AnalysisBroken('qmtpd: qmail_close not found')
-    causes = {'sender': False, 'norcpt': False, 'size-lf': False}
-    for f in m.calls('qmail_fail'):
-        for c, t in m.guards(f, fresh=False) or []:
-            if branch_zero_test(c, t, lambda v: (v.var or '').startswith('L:flagsenderok')) == 'zero':
-                causes['sender'] = True
-            if branch_zero_test(c, t, lambda v: (v.var or '').startswith('L:flagbother')) == 'zero':
-                causes['norcpt'] = True
-            cs = c.strip()
-            if cs.k == 'bin' and cs.op in ('>', '<', '>=', '<=') and 'G:databytes' in cs.refs() and len(cs.refs()) == 2:
-                eng_m = Engine(db, pm, QHooks())
-                Em = Env(eng_m, m, {}, {}, None)
-                other = [r for r in cs.refs() if r != 'G:databytes'][0]
-                v_over = eng_m.concrete(Em, cs, {'G:databytes': 3, eng_m.qualify(m, other): 4})
-                v_eq = eng_m.concrete(Em, cs, {'G:databytes': 3, eng_m.qualify(m, other): 3})
-                if v_over is not None and bool(v_over) == t and bool(v_eq) != t:
-                    causes['size-lf'] = True
-    r4.check(causes['sender'], 'qmtpd:bad-sender->qmail_fail', 'qmail-qmtpd.c:main', 'no qmail_fail under flagsenderok == 0')
-    r4.check(causes['norcpt'], 'qmtpd:no-recipient->qmail_fail', 'qmail-qmtpd.c:main', 'no qmail_fail under flagbother == 0')
-    r4.check(causes['size-lf'], 'qmtpd:len>databytes->qmail_fail', 'qmail-qmtpd.c:main', 'no qmail_fail taken exactly when the announced length exceeds databytes')
-    # DOS mode: every single-byte body put is counted
-    dosputs = []
-    for f, c in deep_calls(pm, m, 'qmail_put'):
-        if len(c.args) > 2 and c.args[2].const == 1:
-            if f is m:
-                if any(branch_zero_test(cc, t, lambda v: (v.var or '').startswith('L:flagdos')) == 'nonzero' for cc, t in m.guards(c) or []):
-                    dosputs.append((f, c))
-            else:
-                sites = m.calls(f.name)
-                if sites and all(any(branch_zero_test(cc, t, lambda v: (v.var or '').startswith('L:flagdos')) == 'nonzero' for cc, t in m.guards(sc_) or []) for sc_ in sites):
-                    dosputs.append((f, c))
-    r4.check(len(dosputs) >= 1 and all(counted_put(f, c) for f, c in dosputs), 'qmtpd:DOS-mode-body-bytes-are-counted', 'qmail-qmtpd.c:main',
-             'DOS-mode body puts: %d, not all preceded by the size countdown' % len(dosputs))
-    # recipients with a failure letter are not passed to qmail_to
-    def names_failure(v):
-        # the recipient's verdict letter: failure.s[failure.len - 1] itself, or a pointer set to its address
-        if 'failure' in v.src():
-            return True
-        for y in v.walk():
-            if y.var and any('failure' in d.args[-1].src() for d in defs_of(m, y.var)) and all('failure' in d.args[-1].src() for d in defs_of(m, y.var)):
-                return True
-        return False
-    for c in m.calls('qmail_to'):
-        ok = any(branch_zero_test(cc, t, names_failure) == 'zero' for cc, t in m.guards(c) or [])
-        r4.check(ok, 'qmtpd:qmail_to-needs-no-failure-letter', c.where, 'qmail_to() not guarded by the recipient\'s failure letter being 0')
-    pq = db.program('qmail-qmqpd')
-    mq = pq.fn('main', 'qmail-qmqpd.c')
-    def isgb_at(site):
-        # getbuf()'s verdict: the call itself, or a variable whose closest preceding assignment is "= getbuf()"
-        def pred(v):
-            v = v.strip()
-            if v.k == 'call' and v.callee == 'getbuf':
-                return True
-            name = v.var or (v.path() if v.k in ('ref', 'cast') else None)
-            if not name:
-                return False
-            ds = [d for d in mq.all_x() if d.k == 'asg' and d.op == '=' and (d.args[0].var == name or d.args[0].path() == name) and mq.dominates(d, site)]
-            if not ds:
-                return False
-            last = ds[0]
-            for d in ds[1:]:
-                if mq.dominates(last, d):
-                    last = d
-            r_ = last.args[1].strip()
-            return r_.k == 'call' and r_.callee == 'getbuf'
-        return pred
-    for c in mq.calls('qmail_to') + [c for c in mq.calls('qmail_from') if c.args[1].string is None]:
-        ok = any(branch_zero_test(cc, t, isgb_at(c)) == 'nonzero' for cc, t in mq.guards(c) or [])
-        a1 = c.args[1].strip()
-        if not ok and a1.k == 'cond' and a1.args[2] is not None and a1.args[2].string is not None:
-            # qmail_from(&qq, ok ? buf : ""): the buffer is passed only where the verdict is non-zero
-            ok = branch_zero_test(a1.args[0], True, isgb_at(c)) == 'nonzero'
-        r4.check(ok, 'qmqpd:%s-needs-getbuf-ok' % c.callee, c.where, '%s() with an address getbuf() rejected' % c.callee)
-    nf = 0
-    for f in mq.calls('qmail_fail'):
-        if any(branch_zero_test(cc, t, isgb_at(f)) == 'zero' for cc, t in mq.guards(f) or []):
-            nf += 1
-    r4.check(nf >= 2, 'qmqpd:bad-address->qmail_fail(2 sites)', 'qmail-qmqpd.c:main', 'qmail_fail under !getbuf(): %d site(s)' % nf)
+    # qmtpd, qmqpd: every refusal cause over scripted sessions
+    for inst_, v_ in sorted(vsites.items()):
+        if not inst_.endswith(':ack-iff-the-queue-took-the-message'):
+            r4.check(v_[0], inst_, v_[1], v_[2], v_[3])
     sess = session_sites(db, rep)
     for inst_, v_ in sorted(sess.items()):
         r4.check(v_[0], inst_ + ':refusals', v_[1], v_[2], v_[3])
